@@ -450,11 +450,11 @@ class MagicNumberRule(MultiLanguageLintRule):  # thailint: ignore[srp]
         Returns:
             True if test file
         """
-        path_str = str(file_path)
-        return any(
-            pattern in path_str
-            for pattern in [".test.", ".spec.", "test_", "_test.", "/tests/", "/test/"]
-        )
+        path = Path(str(file_path))
+        name = path.name
+        if name.startswith("test_") or any(mark in name for mark in (".test.", ".spec.", "_test.")):
+            return True
+        return any(part in ("tests", "test") or part.startswith("test_") for part in path.parts[:-1])
 
     def _check_rust(self, context: BaseLintContext, config: MagicNumberConfig) -> list[Violation]:
         """Check Rust code for magic number violations.
